@@ -88,7 +88,7 @@ pub fn default_runs(prop: &str, thorough: bool) -> u64 {
         ("C08", false) => 150_000,
         ("C08", true) => 8_000_000,
         ("C09", false) => 3_000,
-        ("C09", true) => 100_000,
+        ("C09", true) => 60_000,
         ("C11", false) => 40_000,
         ("C11", true) => 2_500_000,
         ("C12", false) => 25_000,
